@@ -1415,6 +1415,52 @@ impl<T> Queries<T> {
     }
 }
 
+//============ Verification hooks ============================================
+
+/// Access to the outstanding-query table for the verification harness.
+#[cfg(domain_verif)]
+pub mod verif_hooks {
+    /// A wrapper giving access to the private `Queries` table.
+    #[derive(Clone, Debug)]
+    pub struct QueriesHook<T>(super::Queries<T>);
+
+    impl<T> Default for QueriesHook<T> {
+        fn default() -> Self {
+            Self::new()
+        }
+    }
+
+    impl<T> QueriesHook<T> {
+        pub fn new() -> Self {
+            Self(super::Queries::new())
+        }
+        pub fn is_empty(&self) -> bool {
+            self.0.is_empty()
+        }
+        pub fn insert(&mut self, req: T) -> Result<u16, T> {
+            self.0.insert(req).map(|(idx, _)| idx)
+        }
+        pub fn insert_at(&mut self, id: u16, req: T) {
+            self.0.insert_at(id, req)
+        }
+        pub fn try_remove(&mut self, index: u16) -> Option<T> {
+            self.0.try_remove(index)
+        }
+        pub fn drain(&mut self) -> Vec<T> {
+            self.0.drain().collect()
+        }
+        pub fn count(&self) -> usize {
+            self.0.count
+        }
+        pub fn curr(&self) -> usize {
+            self.0.curr
+        }
+        pub fn slots(&self) -> Vec<bool> {
+            self.0.vec.iter().map(Option::is_some).collect()
+        }
+    }
+}
+
 //============ Tests =========================================================
 
 #[cfg(test)]
